@@ -27,6 +27,9 @@
 (*   "D06b" the label of a target namespace is made unique among the target *)
 (*          namespaces only, not among all namespaces of the document       *)
 (*   "D07"  on a merge the imported prefix table overwrites the importer's  *)
+(*   "D40"  switch_to_target_namespace does nothing for a namespace that is  *)
+(*          a target namespace already (the components of a second inline   *)
+(*          schema, or what follows an inline schema, land in the wrong one) *)
 (*   "D38"  a prefix that is in the table is never bound anew: a component  *)
 (*          that declares it for another namespace (XML scoping) is ignored *)
 (***************************************************************************)
@@ -83,7 +86,8 @@ ResolvesTo(d, p) == IF HasPrefix(d, p) THEN LookupOf(d, p).uri ELSE "?"
 SwitchOutcome(d, u) == IF Known(d.tns, u) THEN "already" ELSE IF Known(d.nss, u) THEN "reuse" ELSE "new"
 SwitchTns(d, u, base, D) ==
   LET o == SwitchOutcome(d, u) IN
-  IF o = "already" THEN d
+  \* "D40" (as built): switching to a namespace that is a target namespace already left the current one as it was
+  IF o = "already" THEN (IF "D40" \in D THEN d ELSE [d EXCEPT !.cur = Get(d.tns, u)])
   ELSE LET ns == IF o = "reuse" THEN Get(d.nss, u)
                  ELSE Ns(u, base, FreeN(base, IF "D06b" \in D THEN d.tns ELSE d.nss))
        IN [d EXCEPT !.tns = Append(@, ns), !.nss = Append(@, ns), !.cur = ns]
